@@ -284,7 +284,7 @@ dexpr_copy_j(dexpr_t src)
 	return dexpr_copy(src);
 }
 
-static void
+static __attribute__((unused)) void
 __dnf(dexpr_t root)
 {
 /* recursive __dnf'er */
@@ -442,7 +442,7 @@ __denega(dexpr_t root)
 			break;
 		case DEX_DISJ:
 			/* !(a|b) -> !a & !b */
-			root->type = DEX_DISJ;
+			root->type = DEX_CONJ;
 			break;
 		case DEX_VAL:
 			__nega_kv(root->kv);
@@ -484,8 +484,10 @@ __denega(dexpr_t root)
 static void
 dexpr_simplify(dexpr_t root)
 {
+/* push the negations down to the comparisons,
+ * no disjunctive normal form, its branches would share leaves which
+ * free_dexpr() then frees twice, and the matcher copes with any shape */
 	__denega(root);
-	__dnf(root);
 	return;
 }
 
@@ -604,41 +606,33 @@ dexkv_matches_p(const_dexkv_t dkv, struct dt_dt_s d)
 	return res;
 }
 
-static bool
-__conj_matches_p(const_dexpr_t dex, struct dt_dt_s d)
-{
-	const_dexpr_t a;
-
-	for (a = dex; a->type == DEX_CONJ; a = a->right) {
-		if (!dexkv_matches_p(a->left->kv, d)) {
-			return false;
-		}
-	}
-	/* rightmost cell might be a DEX_VAL */
-	return dexkv_matches_p(a->kv, d);
-}
-
-static bool
-__disj_matches_p(const_dexpr_t dex, struct dt_dt_s d)
-{
-	const_dexpr_t o;
-
-	for (o = dex; o->type == DEX_DISJ; o = o->right) {
-		if (__conj_matches_p(o->left, d)) {
-			return true;
-		}
-	}
-	/* rightmost cell may be a DEX_VAL */
-	return __conj_matches_p(o, d);
-}
-
 static __attribute__((unused)) bool
 dexpr_matches_p(const_dexpr_t dex, struct dt_dt_s d)
 {
-	return __disj_matches_p(dex, d);
+/* evaluate the tree as it is, whatever its shape */
+	bool res;
+
+	switch (dex->type) {
+	case DEX_VAL:
+		res = dexkv_matches_p(dex->kv, d);
+		break;
+	case DEX_CONJ:
+		res = dexpr_matches_p(dex->left, d) &&
+			dexpr_matches_p(dex->right, d);
+		break;
+	case DEX_DISJ:
+		res = dexpr_matches_p(dex->left, d) ||
+			dexpr_matches_p(dex->right, d);
+		break;
+	case DEX_UNK:
+	default:
+		res = false;
+		break;
+	}
+	return !dex->nega ? res : !res;
 }
 
-
+
 #if defined STANDALONE
 const char *prog = "dexpr";
 
